@@ -456,6 +456,41 @@ class IGen(object):
         self.state = "done"
 
 
+class _ICtxMgr(object):
+    """what @contextlib.contextmanager makes of an interpreted generator: __enter__ runs it to its yield, a normal
+    __exit__ runs it to its end.  An exception leaving the with-body is NOT thrown into the generator (IGen has no throw):
+    the generator is closed - its finally / with blocks run - and the exception propagates; a generator with an except
+    clause of its own is outside this model (undecided)."""
+    _pyvc_model = True
+
+    def __init__(self, gen, fn):
+        self.gen, self.fn = gen, fn
+        try:
+            self.handles = any(isinstance(n, ast.Try) and n.handlers for n in ast.walk(func_ast(fn)))
+        except Exception:
+            self.handles = True
+
+    def __enter__(self):
+        if not isinstance(self.gen, IGen):
+            raise Undecided("contextmanager over something that is not an interpreted generator")
+        try:
+            return next(self.gen)
+        except StopIteration:
+            raise RuntimeError("generator didn't yield")
+
+    def __exit__(self, typ, val, tb):
+        if typ is None:
+            try:
+                next(self.gen)
+            except StopIteration:
+                return False
+            raise RuntimeError("generator didn't stop")
+        if self.handles:
+            raise Undecided("an exception thrown into a contextmanager generator that has an except clause is not modelled")
+        self.gen.close()
+        return False
+
+
 _BINOPS = {
     ast.Add: operator.add, ast.Sub: operator.sub, ast.Mult: operator.mul,
     ast.FloorDiv: operator.floordiv, ast.Mod: operator.mod, ast.Pow: operator.pow,
@@ -537,6 +572,11 @@ class Interp(object):
         if isinstance(fn, IFunc):
             return self.call_node(fn.node, fn.env, fn.env.globals, args, kwargs, fn.defaults,
                                   fn.kw_defaults, fn.__name__)
+        if (isinstance(fn, types.FunctionType) and isinstance(getattr(fn, "__wrapped__", None), types.FunctionType)
+                and fn.__code__.co_filename.endswith("contextlib.py") and self.should_interpret(fn.__wrapped__)):
+            # a repository generator function under @contextlib.contextmanager: its body is interpreted like any other
+            # repository code (called natively it would run the real open() / sqlite3 on ghost names)
+            return _ICtxMgr(self.call_real_function(fn.__wrapped__, args, kwargs), fn.__wrapped__)
         if isinstance(fn, types.MethodType):
             if getattr(fn.__self__, "_pyvc_model", False):
                 return fn(*args, **kwargs)
